@@ -242,6 +242,13 @@ async def run_history(loop, case, out, stats, trace):
                 choices += ["start"] * 2
             if started:
                 choices += ["consume"] * 6 + ["finish"]
+            finished = [c for c in consumers if not c["started"]]
+            if finished:
+                # a consumer object lives on after finish(): finishing it once more changes nothing, starting it again makes
+                # it an ordinary consumer again (whatever it remembered from its previous life must not matter)
+                choices += ["refinish"]
+                if len(started) < (1 if single_consumer_mode else 3):
+                    choices += ["restart"]
             if held:
                 choices += ["ack", "nack", "reject", "requeue"] * 2
             op = rnd.choice(choices)
@@ -307,6 +314,19 @@ async def run_history(loop, case, out, stats, trace):
                     multi_seen[q] = True
                 await cons.start()
                 trace.append(("start", cons._rv_label, q, cat, tp, mu))
+                await settle(loop, rig)
+            elif op == "refinish":
+                c = rnd.choice(finished)
+                await asyncio.wait_for(c["obj"].finish(), 30)
+                trace.append(("refinish", c["obj"]._rv_label))
+                await settle(loop, rig, 0.25)
+            elif op == "restart":
+                c = rnd.choice(finished)
+                await c["obj"].start()
+                c["started"] = True
+                if sum(1 for o in consumers if o["started"] and o["queue"] == c["queue"]) > 1:
+                    multi_seen[c["queue"]] = True
+                trace.append(("restart", c["obj"]._rv_label))
                 await settle(loop, rig)
             elif op == "finish":
                 c = pick or rnd.choice(started)
